@@ -1,5 +1,5 @@
 //@unit xmlsink
-//@props C02 C03 C05 C19 C01
+//@props C02 C03 C05 C19 C01 C16
 // U-xmlsink: the boundary with quick-xml (src/events.rs): conversion of input events to output
 // events, the writer loop, attribute serialisation. The single consistent payload convention is
 // checked: OutputEvent::Text holds CHARACTER DATA (it is escaped when written), attribute values
@@ -180,6 +180,18 @@ pub open spec fn log_after(evs: Seq<OutputEvent>, n: int) -> Seq<Written> decrea
         OutputEvent::Text(_) => log_after(evs, n - 1),
         e => log_after(evs, n - 1) + flush(buf_after(evs, n - 1)) + seq![Written::Out(e)] } }
 }
+// ------------------------------------------------------------------------------ text after an element
+/// formatting whitespace only (what str::trim removes entirely)
+pub open spec fn blank(s: Seq<char>) -> bool { str_trim(s).len() == 0 }
+//@item src/transform.rs :: fn push_tail
+//@ replace[R-inline] <<<!events.is_empty()>>> => <<<!(events.events.len() == 0)>>>
+//@ replace[R-into] <<<events.push(OutputEvent::Text(tail.to_owned()));>>> => <<<events.events.push(OutputEvent::Text(tail.clone()));>>>
+//@ ensures
+//@ - tail is Some && !blank(tail->Some_0@) ==> final(events).events@ == old(events).events@.push(OutputEvent::Text(tail->Some_0))     @@C16.tail.text_after_element_kept @@C19.tail.text_after_element_kept @@C03.tail.text_after_element_kept
+//@ - tail is Some && old(events).events@.len() > 0 ==> final(events).events@ == old(events).events@.push(OutputEvent::Text(tail->Some_0))     @@C16.tail.kept_after_output
+//@ - tail is None || (blank(tail->Some_0@) && old(events).events@.len() == 0) ==> final(events).events@ == old(events).events@     @@C16.tail.only_formatting_dropped
+//@end
+
 impl OutputList {
     #[verifier::external_body]
     pub fn blank_line_remover(s: &str) -> (r: String) ensures r@ == blr(s@) { unimplemented!() }
